@@ -207,13 +207,26 @@ func runProperty(prop *Property, repo, tier string, seed int, rebase, verbose bo
 	}
 	sort.Slice(fns, func(i, j int) bool { return funcKey(fns[i]) < funcKey(fns[j]) })
 	// phase 1: invariant inference for unannotated loops (sequential; needs solver)
+	hv := map[*ssa.Function]bool{}
+	tH := time.Now()
+	hintPath := filepath.Join(verifDir, "baseline", prop.ID+".autoinv.json")
+	P.rebase = rebase
+	P.loadHints(hintPath)
 	for _, fn := range fns {
-		if P.hasUnannotatedLoops(fn) {
-			o2 := *opts
-			o2.NoSolve = false
-			P.houdini(fn, &o2)
+		o2 := *opts
+		o2.NoSolve = false
+		t0 := time.Now()
+		P.houdiniDeps(fn, &o2, hv)
+		if d := time.Since(t0).Seconds(); d > 3 && verbose {
+			fmt.Printf("  houdini %s: %.1fs\n", funcKey(fn), d)
 		}
 	}
+	rep.NotesOut = append(rep.NotesOut, fmt.Sprintf("invariant inference: %.1fs", time.Since(tH).Seconds()))
+	if rebase {
+		ensureDir(filepath.Join(verifDir, "baseline"))
+		P.saveHints(hintPath)
+	}
+	tB := time.Now()
 	// phase 2: build all VCs
 	var all []*Obligation
 	for _, fn := range fns {
@@ -242,7 +255,10 @@ func runProperty(prop *Property, repo, tier string, seed int, rebase, verbose bo
 			work = append(work, o)
 		}
 	}
+	rep.NotesOut = append(rep.NotesOut, fmt.Sprintf("VC generation: %.1fs", time.Since(tB).Seconds()))
+	tS := time.Now()
 	solveStaged(work, outDir, timeout)
+	rep.NotesOut = append(rep.NotesOut, fmt.Sprintf("solving: %.1fs", time.Since(tS).Seconds()))
 	// covers (vacuity): every function's exit must be reachable
 	var cwg sync.WaitGroup
 	var cmu sync.Mutex
@@ -282,9 +298,10 @@ func solveStaged(obls []*Obligation, outDir string, timeout int) {
 		wg.Add(1)
 		go func(o *Obligation) {
 			defer wg.Done()
-			script := o.vc.query(o.Mark, nil, o.Goal, false)
-			r := solve(script, outDir, o.Name, 2, "z3")
+			sliced, _ := o.vc.slicedQuery(o.Mark, o.Goal)
+			r := solve(sliced, outDir, o.Name+".slice", 3, "z3")
 			if r.Status != "unsat" {
+				script := o.vc.query(o.Mark, nil, o.Goal, false)
 				r2 := solve(script, outDir, o.Name, timeout, "")
 				if r2.Status == "unsat" || r2.Status == "sat" || r.Status != "sat" {
 					r2.Time += r.Time
